@@ -608,6 +608,22 @@ func (propC17) Generate(r *Rand, tier string) []Case {
 			}
 		}
 	}
+	// (2c) comment openers INSIDE a quoted segment, followed by brackets on the same line: a quoted "-- ", "#" or "/*"
+	// is text, the brackets after the segment are still array syntax
+	for _, body := range []string{"-- ", " -- ", "a -- b", "--", "-", "- -", "--\n", "#", "# ", "/*", "/* */", "*/", "n/a -- pending", "--[", "-- ]"} {
+		for _, k := range []string{"sq", "bt", "dq"} {
+			for _, tail := range [][]c17Seg{
+				{{K: "raw", S: " "}, {K: "open"}, {K: "close"}},
+				{{K: "open"}, {K: "close"}, {K: "raw", S: " "}, {K: "bt", S: "b[0]"}},
+				{{K: "raw", S: ", "}, {K: "open"}, {K: "sq", S: "x"}, {K: "close"}},
+			} {
+				doc := append([]c17Seg{{K: k, S: body}}, tail...)
+				for _, q := range []string{"pg", "my"} {
+					add(c17In{Kind: "doc", Q: q, Doc: doc}, "stream:probe-comment-openers")
+				}
+			}
+		}
+	}
 	// (3) random documents
 	for i := 0; i < 500*mul; i++ {
 		add(c17In{Kind: "doc", Q: Pick(r, []string{"pg", "pg", "my"}), Doc: c17GenDoc(r)}, "stream:doc")
